@@ -609,3 +609,161 @@ func structural(l *loader, facts map[string]any, out string) {
 	os.WriteFile(filepath.Join(out, "HandshakeOps.lean"), []byte(b.String()), 0o644)
 	facts["handshake_programs"] = progs
 }
+
+// ---------------------------------------------------------------- statement shapes
+//
+// For a few small functions whose *order of statements* is what a model rests on, the translator
+// emits the statements as a list of items ⟨depth, kind, text⟩ in source order, `if` / `for` /
+// `switch` / `select` headers followed by their bodies one level deeper (function literals are
+// descended into as well).  The Lean side states what it needs about that order (Props files).
+
+var shapeFuncs = []struct{ pkg, recv, name string }{
+	{"common", "Deadline", "SetDeadline"},
+	{"common", "Deadline", "timeoutFor"},
+}
+
+func recvName(fd *ast.FuncDecl) string {
+	if fd.Recv == nil || len(fd.Recv.List) == 0 {
+		return ""
+	}
+	t := fd.Recv.List[0].Type
+	if s, ok := t.(*ast.StarExpr); ok {
+		t = s.X
+	}
+	if ix, ok := t.(*ast.IndexExpr); ok {
+		t = ix.X
+	}
+	return exprStr(t)
+}
+
+func shapeStmts(list []ast.Stmt, depth int, out *[]string) {
+	// head: the assigned / incremented operand, or the called function ("" otherwise)
+	addH := func(kind, head, text string) {
+		*out = append(*out, fmt.Sprintf("⟨%d, %s, %s, %s⟩", depth, leanString(kind), leanString(head), leanString(text)))
+	}
+	add := func(kind, text string) { addH(kind, "", text) }
+	lits := func(n ast.Node) {
+		ast.Inspect(n, func(x ast.Node) bool {
+			if fl, ok := x.(*ast.FuncLit); ok {
+				shapeStmts(fl.Body.List, depth+1, out)
+				return false
+			}
+			return true
+		})
+	}
+	for _, st := range list {
+		switch s := st.(type) {
+		case *ast.IfStmt:
+			add("if", exprStr(s.Cond))
+			shapeStmts(s.Body.List, depth+1, out)
+			switch e := s.Else.(type) {
+			case *ast.BlockStmt:
+				add("else", "")
+				shapeStmts(e.List, depth+1, out)
+			case *ast.IfStmt:
+				add("else", "")
+				shapeStmts([]ast.Stmt{e}, depth+1, out)
+			}
+		case *ast.ForStmt:
+			add("for", "")
+			shapeStmts(s.Body.List, depth+1, out)
+		case *ast.RangeStmt:
+			add("for", exprStr(s.X))
+			shapeStmts(s.Body.List, depth+1, out)
+		case *ast.SelectStmt:
+			add("select", "")
+			for _, c := range s.Body.List {
+				cc := c.(*ast.CommClause)
+				if cc.Comm == nil {
+					add("default", "")
+				} else {
+					add("case", "")
+					shapeStmts([]ast.Stmt{cc.Comm}, depth+1, out)
+				}
+				shapeStmts(cc.Body, depth+1, out)
+			}
+		case *ast.SwitchStmt:
+			add("switch", "")
+			for _, c := range s.Body.List {
+				shapeStmts(c.(*ast.CaseClause).Body, depth+1, out)
+			}
+		case *ast.BlockStmt:
+			shapeStmts(s.List, depth, out)
+		case *ast.ReturnStmt:
+			var rs []string
+			for _, r := range s.Results {
+				rs = append(rs, exprStr(r))
+			}
+			add("return", strings.Join(rs, ", "))
+		case *ast.IncDecStmt:
+			addH("incdec", exprStr(s.X), exprStr(s.X)+s.Tok.String())
+		case *ast.AssignStmt:
+			var l, r []string
+			for _, x := range s.Lhs {
+				l = append(l, exprStr(x))
+			}
+			for _, x := range s.Rhs {
+				r = append(r, exprStr(x))
+			}
+			rhsHead := ""
+			if len(s.Rhs) == 1 {
+				if c, ok := s.Rhs[0].(*ast.CallExpr); ok {
+					rhsHead = " <- " + exprStr(c.Fun)
+				}
+			}
+			addH("assign", strings.Join(l, ", ")+rhsHead, strings.Join(l, ", ")+" "+s.Tok.String()+" "+strings.Join(r, ", "))
+			lits(s)
+		case *ast.ExprStmt:
+			if c, ok := s.X.(*ast.CallExpr); ok {
+				var as []string
+				for _, a := range c.Args {
+					as = append(as, exprStr(a))
+				}
+				addH("call", exprStr(c.Fun), exprStr(c.Fun)+"("+strings.Join(as, ", ")+")")
+			} else {
+				add("expr", exprStr(s.X))
+			}
+			lits(s)
+		case *ast.DeferStmt:
+			add("defer", exprStr(s.Call.Fun))
+		case *ast.GoStmt:
+			add("go", exprStr(s.Call.Fun))
+			lits(s)
+		case *ast.BranchStmt:
+			add("branch", s.Tok.String())
+		case *ast.SendStmt:
+			add("send", exprStr(s.Chan)+" <- "+exprStr(s.Value))
+		default:
+			add("other", fmt.Sprintf("%T", st))
+		}
+	}
+}
+
+func shapes(l *loader, out string) {
+	var b strings.Builder
+	b.WriteString("/- GENERATED by harness/extract from /repo's current source on every run. Do not edit. -/\n")
+	b.WriteString("import HopModel.Base.Shape\nnamespace Generated\n\n")
+	for _, sf := range shapeFuncs {
+		var items []string
+		for _, f := range l.files[sf.pkg] {
+			for _, d := range f.Decls {
+				fd, ok := d.(*ast.FuncDecl)
+				if !ok || fd.Name.Name != sf.name || recvName(fd) != sf.recv || fd.Body == nil {
+					continue
+				}
+				shapeStmts(fd.Body.List, 0, &items)
+			}
+		}
+		// an absent function has the empty shape: every obligation about it fails
+		fmt.Fprintf(&b, "def shape_%s_%s_%s : List Shape.Item := [", sf.pkg, sf.recv, sf.name)
+		for i, it := range items {
+			if i > 0 {
+				b.WriteString(",")
+			}
+			b.WriteString("\n  " + it)
+		}
+		b.WriteString("]\n\n")
+	}
+	b.WriteString("end Generated\n")
+	os.WriteFile(filepath.Join(out, "Shapes.lean"), []byte(b.String()), 0o644)
+}
